@@ -12,6 +12,22 @@ NOT_APPLICABLE = {}
 HOOK_COMMITS = []
 
 CHECKS = {
+    "C12": {
+        "run": "^TestC12_",
+        "rule": ("cases = (row or chain, params, variant, cold script(s), mode) with modes: 3 sequential subscriptions; 2 subscriptions alive together over a manually "
+                 "driven source; 2-4 concurrent subscriptions; one operator value applied to 2-3 sources and subscribed in every listed order. Non-trivial = the "
+                 "row/chain keeps per-subscription state (index, accumulator, buffer, seen-set, counter) or re-subscribes, or an operator value is applied to "
+                 ">= 2 sources; distinct by descriptor hash."),
+        "quick": {"rapid": 400, "timeout": 600, "shards": 4},
+        "thorough": {"rapid": 6000, "timeout": 3000, "shards": 16},
+        "assumptions": COMMON_ASSUMPTIONS,
+        "technique": "property-based testing: differential (n-th / concurrent / co-applied subscription vs first subscription of a fresh pipeline) + model-derived source-subscription counts",
+        "level_text": ("Exploration. For every catalogue row (all variants, boundary parameters) and rapid-generated chains, over cold instrumented sources: the trace of "
+                       "the 2nd and 3rd subscription, of subscriptions alive at the same time, of concurrent subscriptions, and of pipelines built by applying one "
+                       "operator value to several sources must equal the trace of a first subscription to a freshly built pipeline; the source must not be "
+                       "subscribed at construction and exactly as often per Subscribe as the definition says (counted on the model)."),
+        "level_note": "Hot constructs (subjects, Share*, connectables) are excluded as the property says; concurrent mode is statistical (scheduler-dependent).",
+    },
     "C01": {
         "run": "^TestC01_",
         "rule": ("cases = (constructor | catalogue row | subject kind and buffer size, producer word over {N1,N2,E,C} including illegal suffixes after a terminal, "
